@@ -41,6 +41,7 @@ var (
 	ErrUnknownResultType = errors.New("unknown result type")
 
 	ErrTableExists             = errors.New("table already exists")
+	ErrInvalidTableName        = errors.New("table name must not contain '/'")
 	ErrManagerClosed           = errors.New("manager closed")
 	ErrLeaseNotAcquired        = errors.New("lease not acquired")
 	ErrNodeHostInfoUnavailable = errors.New("nodehost info unavailable")
